@@ -484,7 +484,9 @@ def run_batch(pid: str, tier: str, verif_seed: int, runs: Optional[int], workers
     unreproducible = 0
     if unknown:
         limit = 4
-        for key, info in sorted(unknown.items(), key=lambda kv: kv[1]["size"])[:limit]:
+        for key, info in sorted(unknown.items(), key=lambda kv: kv[1]["size"]):
+            if len(reported) >= limit or unreproducible >= 3 * limit:
+                break
             plan = info["plan"]
             prefix: List[dict] = []
             budget_s = 45.0 if tier == "quick" else 180.0
